@@ -171,7 +171,7 @@ class SimDevice:
 
     # -- plain light --------------------------------------------------------
     def get_color(self):
-        self._req('get_color')
+        self._req('get_color', tuple(self.color))
         return tuple(self.color)
 
     def set_color(self, color, duration=0, rapid=False):
